@@ -173,16 +173,23 @@ func VerifC18Sample(n int) {
 // second call is held to the same standard as the first, whatever the first one left behind.
 func VerifC18SampleTwice(n int, concreteFirst int) {
 	var l1 []float32
+	var s *Sampler
+	var k int
 	if concreteFirst != 0 {
-		// the first call sees ascending logits 1..n (sorting them permutes the token order)
+		// targeted shape: the first call sees ascending logits 1..n (sorting them permutes the token
+		// order) on a sampler with temperature 1 and top-p / min-p switched off; top-k is arbitrary
 		for i := 0; i < n; i++ {
 			l1 = append(l1, float32(i+1))
 		}
+		k = verifNondetInt("topK")
+		verifAssume(k >= -1 && k <= n+1)
+		sm := NewSampler(1, k, 1, 0, -1, nil)
+		s = &sm
 	} else {
 		l1 = vfDrawLogits(n)
+		s, k = vfArbSampler(n)
 	}
 	l2 := vfDrawLogits(n)
-	s, k := vfArbSampler(n)
 	if _, err := s.Sample(l1); err != nil {
 		return
 	}
